@@ -487,6 +487,12 @@ def _run_check(prop, tier, spec, seed, t0, workdir):
 
     for path, text in violations:
         print(text)
+        try:
+            # the message stays on disk beside the replay: a caller that only keeps the last line of
+            # this output (sweep.py, a CI log that is cut) must not lose what was violated
+            open(path + ".message.txt", "w").write(text + "\n")
+        except OSError:
+            pass
         print("VIOLATION property=%s replay=%s" % (prop, path))
     if violations:
         return 1
